@@ -362,6 +362,38 @@ func (w *writeReject) classify(cond ssa.Value, truth bool, d int) string {
 		if w.hasUserArg(x) {
 			return "a comparison of the located entry with the caller's key/value"
 		}
+		// a bool predicate of the package over a node or the tree (`node.isEmpty()` for the hand-written
+		// `len(node.Link) == 1 && node.Link[0] == nil`): accepted when every comparison in its body would be
+		// accepted here — nil tests and own-length checks, no limit
+		if callee := ir.Callee(x.Common()); callee != nil && callee.Pkg != nil && callee.Pkg.Pkg.Path() == ir.MastPath && callee.Parent() == nil && d < 3 {
+			if bt, isB := callee.Signature.Results().At(0).Type().Underlying().(*types.Basic); callee.Signature.Results().Len() == 1 && isB && bt.Kind() == types.Bool {
+				okAll, n := true, 0
+				for _, b := range callee.Blocks {
+					for _, ins := range b.Instrs {
+						if _, isCall := ins.(ssa.CallInstruction); isCall {
+							if _, isBuiltin := ins.(*ssa.Call).Call.Value.(*ssa.Builtin); !isBuiltin {
+								okAll = false
+							}
+						}
+						bin, isBin := ins.(*ssa.BinOp)
+						if !isBin || !isCompare(bin.Op) {
+							continue
+						}
+						n++
+						if _, _, isNil := ir.NilTest(bin); isNil {
+							continue
+						}
+						if _, isLen, bad := limitCompare(bin, true); isLen && !bad {
+							continue
+						}
+						okAll = false
+					}
+				}
+				if okAll && n > 0 {
+					return "a shape predicate of the package (nil tests and own-length checks only)"
+				}
+			}
+		}
 	case *ssa.Extract:
 		// `same, err := m.keyEqualsAt(node, i, key); if !same`
 		if _, isCall := x.Tuple.(*ssa.Call); isCall && w.hasUserArg(x) {
